@@ -115,11 +115,17 @@ class _RecursionLimitGuard:
     code have changed it with ``sys.setrecursionlimit``, and ``sys.modules``
     back to the interpreter's module table, should it have been rebound.
     """
+    # Until it is started there is nothing to put back (an execution that ran
+    # out of time while its patches were being started stops all of them)
+    limit = None
+
     def start(self):
-        self.limit = sys.getrecursionlimit()
         self.module_table = sys.modules
+        self.limit = sys.getrecursionlimit()
 
     def stop(self):
+        if self.limit is None:
+            return
         if sys.getrecursionlimit() != self.limit:
             sys.setrecursionlimit(self.limit)
         if getattr(sys, 'modules', None) is not self.module_table:
